@@ -273,7 +273,7 @@ class Mir:
                 for al in _REV_ALIASES[sb]:
                     if al.endswith(dim) and self.defs.get((al, m.group(3))):
                         # strict: nalgebra's own impls for the same type (Isometry * Point ..) stay external
-                        strict = [x for x in self.defs.get((al, m.group(3))) if x[1] == tb and ('<' not in m.group(2) or self._impl_matches(x, m.group(2), m.group(1)))]
+                        strict = [x for x in self.defs.get((al, m.group(3))) if x[1] == tb and (self._impl_matches(x, m.group(2), m.group(1)) if '<' in m.group(2) else not self._impl_trait_generic(x))]
                         if strict:
                             return self.fns[strict[0][0]]
                         break
@@ -319,6 +319,13 @@ class Mir:
             if len(r) == 1 and r[0][2] is not None and mod in ('crate', 'common', 'geom2', 'geom3', 'func1', 'metrology', 'mesh', 'engeom'):
                 return self.fns[r[0][0]]
         return None
+
+    def _impl_trait_generic(self, entry):
+        m = re.search(r'<impl at (src/[^:]+):(\d+)', entry[0])
+        if not m:
+            return False
+        h = self.impl_header(m.group(1), int(m.group(2)))
+        return bool(re.search(r'impl\s*(?:<[^>]*>)?\s+[\w:]+<', h))
 
     def _impl_matches(self, entry, trait_args, selft):
         """entry = (fullname, tbase, mod, selft_src); compare the first generic argument of the trait textually"""
